@@ -344,14 +344,19 @@ fn sub_pairs(tier: Tier) -> Vec<Sub> {
         let nc = seq_count(n, cmin, cmax);
         let nf = seq_count(n, 0, fmax);
         let alpha = alpha.clone();
-        let cfgs = configs(extreme);
+        let mut cfgs = configs(extreme);
+        if cmin == 2 && fmax == 3 {
+            // the largest space: one factor pair (the other one is covered by all shorter pairs)
+            cfgs.retain(|c| c.caf == 1);
+        }
+        let factors_txt = if cmin == 2 && fmax == 3 { "{(1,-8)}" } else if extreme { "{(1,-8),(4,1),(0,0),(2^63,-2^63)}" } else { "{(1,-8),(4,1)}" };
         let ncfg = cfgs.len();
         subs.push(Sub::new(
             name,
             nc * nf,
             &format!(
                 "every (CIE program, FDE program) with |CIE| in {}..={}, |FDE| <= {} over the 27-symbol alphabet; each under {} configurations = (CAF,DAF) in {} x vendor {{Default, AArch64}} x {{.debug_frame v4, .eh_frame v1}}, heap storage",
-                cmin, cmax, fmax, ncfg, if extreme { "{(1,-8),(4,1),(0,0),(2^63,-2^63)}" } else { "{(1,-8),(4,1)}" }
+                cmin, cmax, fmax, ncfg, factors_txt
             ),
             move |ctx, i| {
                 let ci = i % nc;
